@@ -41,6 +41,8 @@ func runC09(c *Ctx, r *Report) {
 	workerKeepsWhatItFetched(c, r, "R-C09.15")
 	r.Doc("R-C09.16", "no constructor consumes another call's leftovers: a function that hands the caller's options value on as it is sets every field that some function fills with data of its own call (the heads a manifest load leaves in a reused options value must not become the heads of the next, different load)")
 	noCallSpecificLeftovers(c, r, "R-C09.16")
+	r.Doc("R-C09.17", "the block carries every field exactly as the entry holds it (adopted from C08: a payload coerced on its way into the block makes every loader rebuild a log whose values carry other bytes than the original's)")
+	importRules(c, r, "C08", []string{"R-C08.6"}, "R-C09.17")
 	r.Doc("R-C09.8", "the entry reader refuses a block only when reading or decoding it failed: no extra acceptance test on the decoded entry (whatever Append wrote must load again)")
 	// the heads of the rebuilt log: fetched entries whose hash equals a manifest head
 	{
